@@ -12,6 +12,9 @@ TRUSTED = ["rustc MIR", "octets::Octets cursor semantics"]
 
 
 def run(ctx):
+    ctx.rule("C15-R7", "the slice decoder consumes the same bytes as the buffered / async ones: encoded length, not minimal length")
+    shared.slice_reader_advance(ctx, "C15-R7")
+    shared.buffer_accessors(ctx, "C15-R7")
     ctx.rule("C15-R6", "the async source adapter reports exactly the bytes that arrived (a short read is not taken for a full one)")
     shared.proto_io_adapters(ctx, "C15-R6")
     ctx.rule("C15-R1", "sync == async decoder as I/O sequences (Frame, StreamHeader)")
